@@ -248,7 +248,7 @@ Proof.
     rewrite andb_true_iff, orow_eqb_eq, frameb_frame. split.
     + intros [H1 H2]. eapply ok_def; eassumption.
     + intros H. inversion H; subst; [|discriminate]. rewrite Ee in *. split; [congruence | assumption].
-  - destruct (seval T e) as [[| | | |l|]|] eqn:Ee;
+  - destruct (seval T e) as [[| | | |l| | |]|] eqn:Ee;
       try (split; [discriminate | intros H; inversion H; subst; [rewrite Ee in *; discriminate | discriminate]]).
     rewrite !andb_true_iff, nodupb_NoDup, forallb_undef, destr_rowsb_spec, frameb_frame. split.
     + intros [[H1 H2] [[H3 H4] H5]]. eapply ok_destr; eassumption.
@@ -393,6 +393,24 @@ Definition w_table_column_partial : list stmt :=
 Lemma refuted_table_column_partial : refutes "table-column-partial" w_table_column_partial.
 Proof. refute. Qed.
 
+(* ~m<[u8]:1,3> := [1 100 3] ; m += 200<u8>   -- error (100 + 200 overflows u8), but m is now [201 100 3] *)
+Definition w_int_op_partial : list stmt :=
+  [SDef true "m" (EK "u8" (Some (1, 3)) [Zx 1; Zx 100; Zx 3]); SOp "m" OAdd (EK "u8" None [Zx 200])].
+Lemma refuted_int_op_partial : refutes "int-op-partial" w_int_op_partial.
+Proof. refute. Qed.
+
+(* ~m<[u8]:1,3> := [4 4 4] ; m /= [2<u8> 0<u8> 2<u8>]   -- error (division by zero), but m is now [2 4 4] *)
+Definition w_int_div_partial : list stmt :=
+  [SDef true "m" (EK "u8" (Some (1, 3)) [Zx 4; Zx 4; Zx 4]); SOp "m" ODiv (EK "u8" (Some (1, 3)) [Zx 2; Zx 0; Zx 2])].
+Lemma refuted_int_div_partial : refutes "int-op-partial" w_int_div_partial.
+Proof. refute. Qed.
+
+(* ~x := 3/2 ; x /= 0<r64>   -- error, but x is now 1/0 *)
+Definition w_r64_div_zero : list stmt :=
+  [SDef true "x" (EK "r64" None [Lx [Zx 3; Zx 2]]); SOp "x" ODiv (EK "r64" None [Lx [Zx 0; Zx 1]])].
+Lemma refuted_r64_div_zero : refutes "r64-div-zero-partial" w_r64_div_zero.
+Proof. refute. Qed.
+
 (* t := (1, 2) ; (p, q) := t ; p = 5   -- t becomes (5, 2); (the destructure itself is already a finding) *)
 Definition w_alias_destructure : list stmt :=
   [SDef false "t" (ETup [ANum (dz 1); ANum (dz 2)]); SDestr ["p"; "q"] (EVar "t"); SAssign "p" (ENum (dz 5))].
@@ -493,10 +511,11 @@ Section AnyCfg.
 
 Lemma eval_atom_grows st a v s1 : eval_atom cf st a = Some (v, s1) -> grows st s1.
 Proof.
-  destruct a as [x|r c d|x]; cbn.
+  destruct a as [x|r c d|x|k sh l]; cbn.
   - intros H. inversion H; subst. apply (alloc_grows (DNum x) st).
   - intros H. inversion H; subst. apply (alloc_grows (DMat r c d) st).
   - destruct (find x (names st)) as [[[mu w] b]|]; [|discriminate]. rewrite Hac. intros H. inversion H; subst. apply grows_refl.
+  - intros H. inversion H; subst. apply (alloc_grows (DK k sh l) st).
 Qed.
 
 Lemma eval_atoms_grows l : forall st vs s1, eval_atoms cf st l = Some (vs, s1) -> grows st s1.
@@ -510,7 +529,7 @@ Qed.
 
 Lemma eval_expr_grows st e v s1 b : eval_expr cf st e = Some (v, s1, b) -> grows st s1.
 Proof.
-  destruct e as [x|r c d|l|cols|l|l|x]; cbn [eval_expr].
+  destruct e as [x|r c d|l|cols|l|l|x|k sh l|x]; cbn [eval_expr].
   - intros H. inversion H; subst. apply (alloc_grows (DNum x) st).
   - intros H. inversion H; subst. apply (alloc_grows (DMat r c d) st).
   - intros H. inversion H; subst. apply (fresh_id_grows st).
@@ -520,6 +539,8 @@ Proof.
   - cbn. destruct (eval_atoms cf _ (map snd l)) as [[vs s2]|] eqn:E; [|discriminate].
     intros H. inversion H; subst. eapply grows_trans; [apply (fresh_id_grows st) | eapply eval_atoms_grows; exact E].
   - destruct (find x (names st)) as [[[mu w] b']|]; [|discriminate]. intros H. inversion H; subst. apply grows_refl.
+  - intros H. inversion H; subst. apply (alloc_grows (DK k sh l) st).
+  - intros H. inversion H; subst. apply (alloc_grows (DOpq x) st).
 Qed.
 
 (* ... and when it is a closed literal: everything it reaches is new, and it denotes the literal *)
@@ -532,7 +553,7 @@ Definition closed_expr (e : expr) : Prop :=
   | _ => True
   end.
 Definition adv (a : atom) : dv :=
-  match a with ANum x => DNum x | AMat r c d => DMat r c d | AVar _ => DNum (0%Z, 0%Z) end.
+  match a with ANum x => DNum x | AMat r c d => DMat r c d | AVar _ => DNum (0%Z, 0%Z) | AK k sh l => DK k sh l end.
 
 Definition new_in (st s1 : store) (cs : list nat) : Prop := forall c, In c cs -> next st <= c < next s1.
 
@@ -543,7 +564,7 @@ Lemma eval_atom_closed T st a v s1 :
   closed_atom a -> eval_atom cf st a = Some (v, s1) ->
   new_in st s1 (cells_of v) /\ snap (cells s1) v = adv a /\ aeval T a = Some (adv a).
 Proof.
-  destruct a as [x|r c d|x]; cbn; intros Hc H; try contradiction; inversion H; subst; simpl; unfold new_in, get; simpl;
+  destruct a as [x|r c d|x|k sh l]; cbn; intros Hc H; try contradiction; inversion H; subst; simpl; unfold new_in, get; simpl;
     rewrite Nat.eqb_refl; (split; [intros c0 [<-|[]]; lia|]); split; reflexivity.
 Qed.
 
@@ -599,7 +620,7 @@ Lemma eval_expr_closed T st e v s1 b :
   closed_expr e -> eval_expr cf st e = Some (v, s1, b) ->
   new_in st s1 (cells_of v) /\ seval T e = Some (snap (cells s1) v) /\ detach v = v /\ deref1 v = v.
 Proof.
-  destruct e as [x|r c d|l|cols|l|l|x]; cbn [eval_expr closed_expr]; intros Hc; try contradiction.
+  destruct e as [x|r c d|l|cols|l|l|x|k sh l0|x]; cbn [eval_expr closed_expr]; intros Hc; try contradiction.
   - intros H. inversion H; subst. simpl; unfold new_in, get; simpl. rewrite Nat.eqb_refl.
     split; [intros c0 [<-|[]]; lia|]. repeat split.
   - intros H. inversion H; subst. simpl; unfold new_in, get; simpl. rewrite Nat.eqb_refl.
@@ -623,6 +644,10 @@ Proof.
     + cbn [seval snap]. rewrite (map_opt_fields _ _ Ha). cbn. f_equal. f_equal.
       rewrite <- combine_fst_snd, <- Hs, <- combine_map_snd.
       apply map_ext. intros [f w]. reflexivity.
+  - intros H. inversion H; subst. simpl; unfold new_in, get; simpl. rewrite Nat.eqb_refl.
+    split; [intros c0 [<-|[]]; lia|]. repeat split.
+  - intros H. inversion H; subst. simpl; unfold new_in, get; simpl. rewrite Nat.eqb_refl.
+    split; [intros c0 [<-|[]]; lia|]. repeat split.
 Qed.
 
 End AnyCfg.
@@ -766,8 +791,8 @@ Proof.
   destruct sink as [c|i l|i l|i fs|w]; try discriminate.
   - repeat dmh; inversion H; subst; (split; [cbn; auto | eexists; reflexivity]).
   - destruct (find f fs) as [[a0| | | |]|] eqn:Ef; try discriminate.
-    repeat dmh; inversion H; subst. split; [|eexists; reflexivity].
-    cbn [cells_of]. eapply find_cells; [exact Ef | cbn; auto].
+    repeat dmh; inversion H; subst; (split; [|eexists; reflexivity]);
+    (cbn [cells_of]; eapply find_cells; [exact Ef | cbn; auto]).
 Qed.
 
 Lemma k_tix_ok k src : kernel_ok (fun cs sink => k_tix cs sink k src).
@@ -776,8 +801,8 @@ Proof.
   destruct (Z.leb k 0); [discriminate|].
   destruct sink as [c|i l|i l|i fs|w]; try discriminate.
   destruct (nth_error l (Z.to_nat (k - 1))) as [[a0| | | |]|] eqn:En; try discriminate.
-  repeat dmh; inversion H; subst. split; [|eexists; reflexivity].
-  cbn [cells_of]. eapply nth_cells; [exact En | cbn; auto].
+  repeat dmh; inversion H; subst; (split; [|eexists; reflexivity]);
+  (cbn [cells_of]; eapply nth_cells; [exact En | cbn; auto]).
 Qed.
 
 Lemma NoDup_app_one {A} (l : list A) (x : A) : NoDup l -> ~ In x l -> NoDup (l ++ [x]).
@@ -1008,7 +1033,7 @@ Section AnyCfg2.
     names_bounded st0 -> grows st0 st -> eval_atom cf st a = Some (v, s1) ->
     aeval (snap_tab st0) a = Some (snap (cells s1) v) /\ bounded (next s1) v.
   Proof.
-    intros Hnb Hg. destruct a as [x|r c d|x]; cbn [eval_atom aeval].
+    intros Hnb Hg. destruct a as [x|r c d|x|k sh l]; cbn [eval_atom aeval].
     - intros H. inversion H; subst. simpl; unfold get, bounded; simpl. rewrite Nat.eqb_refl.
       split; [reflexivity | intros c0 [<-|[]]; lia].
     - intros H. inversion H; subst. simpl; unfold get, bounded; simpl. rewrite Nat.eqb_refl.
@@ -1018,6 +1043,8 @@ Section AnyCfg2.
       rewrite find_snap_tab, E. cbn [option_map snd snap cells_of].
       assert (Hb : bounded (next st0) w) by (apply find_In in E; eapply Hnb; eassumption).
       split; [f_equal; symmetry; apply grows_snap; assumption | eapply grows_bounded; eassumption].
+    - intros H. inversion H; subst. simpl; unfold get, bounded; simpl. rewrite Nat.eqb_refl.
+      split; [reflexivity | intros c0 [<-|[]]; lia].
   Qed.
 
   Lemma eval_atoms_snap st0 l : forall st vs s1,
@@ -1055,7 +1082,7 @@ Section AnyCfg2.
     names_bounded st -> eval_expr cf st e = Some (v, s1, b) ->
     seval (snap_tab st) e = Some (snap (cells s1) v) /\ bounded (next s1) v.
   Proof.
-    intros Hnb. destruct e as [x|r c d|l|cols|l|l|x]; cbn [eval_expr seval].
+    intros Hnb. destruct e as [x|r c d|l|cols|l|l|x|k sh l|x]; cbn [eval_expr seval].
     - intros H. inversion H; subst. simpl; unfold get, bounded; simpl. rewrite Nat.eqb_refl.
       split; [reflexivity | intros c0 [<-|[]]; lia].
     - intros H. inversion H; subst. simpl; unfold get, bounded; simpl. rewrite Nat.eqb_refl.
@@ -1079,6 +1106,10 @@ Section AnyCfg2.
     - destruct (find x (names st)) as [[[mu w] b']|] eqn:E; [|discriminate].
       intros H. inversion H; subst. rewrite find_snap_tab, E. cbn [option_map snd snap cells_of].
       split; [reflexivity|]. apply find_In in E. exact (Hnb _ _ _ _ E).
+    - intros H. inversion H; subst. simpl; unfold get, bounded; simpl. rewrite Nat.eqb_refl.
+      split; [reflexivity | intros c0 [<-|[]]; lia].
+    - intros H. inversion H; subst. simpl; unfold get, bounded; simpl. rewrite Nat.eqb_refl.
+      split; [reflexivity | intros c0 [<-|[]]; lia].
   Qed.
 End AnyCfg2.
 
@@ -1154,8 +1185,15 @@ Lemma k_assign_np src : never_partial (fun cs sink => k_assign cs sink src).
 Proof. intros cs sink a cs'. unfold k_assign. repeat dmg. Qed.
 Lemma k_idx_np lin s : never_partial (fun cs sink => k_idx cs sink lin s).
 Proof. intros cs sink a cs'. unfold k_idx. repeat dmg. Qed.
-Lemma k_op_np o src : never_partial (fun cs sink => k_op cs o sink src).
-Proof. intros cs sink a cs'. unfold k_op. repeat dmg. Qed.
+(* k_op is the exception: an integer op-assignment may panic (overflow, division by zero) after it wrote
+   some elements; no repair is proposed for it, so it stays a hypothesis *)
+Definition op_partial (cf : cfg) (st : store) (s : stmt) : bool :=
+  match s with SOp _ _ _ => is_partial (exec cf st s) | _ => false end.
+Fixpoint no_op_partial (cf : cfg) (st : store) (h : list stmt) : bool :=
+  match h with
+  | [] => true
+  | s :: r => andb (negb (op_partial cf st s)) (no_op_partial cf (fst (exec_st cf st s)) r)
+  end.
 Lemma k_tix_np k src : never_partial (fun cs sink => k_tix cs sink k src).
 Proof. intros cs sink a cs'. unfold k_tix. repeat dmg. Qed.
 Lemma k_field_np cf f src : c_col_checked cf = true -> never_partial (fun cs sink => k_field cf cs sink f src).
@@ -1182,14 +1220,14 @@ Proof.
 Qed.
 
 Lemma exec_rep_ok st s :
-  Inv st -> rep_safe s ->
+  Inv st -> rep_safe s -> op_partial cfg_rep st s = false ->
   step_ok (snap_tab st) s (snd (exec_st cfg_rep st s)) (snap_tab (fst (exec_st cfg_rep st s))) /\
   Inv (fst (exec_st cfg_rep st s)).
 Proof.
-  intros HI Hs. unfold exec_st.
+  intros HI Hs Hop. unfold exec_st.
   destruct (exec cfg_rep st s) as [[s2 ok] w] eqn:Ex. cbn [fst snd].
   pose proof (Inv_names_bounded _ HI) as Hnb.
-  destruct s as [mu x e|x e|x i d|x i j d|x o e|x f e|x k e|xs e]; cbn [exec rep_safe] in *.
+  destruct s as [mu x e|x e|x i d|x i j d|x o e|x f e|x k e|xs e]; cbn [exec rep_safe op_partial] in *.
   - (* definition *)
     destruct (find x (names st)) as [en|] eqn:Ef.
     { inversion Ex; subst. split; [apply refused_ok | exact HI]. }
@@ -1205,7 +1243,7 @@ Proof.
       { destruct e; try exact Ex. cbn in Hc. contradiction. }
       inversion Ex'; subst. rewrite Hdt.
       apply (define_fresh_ok st s1 mu x e v b (snap (cells s1) v) HI Hg Hnew Hdr Ef Hse eq_refl). }
-    destruct e as [y|r c d0|l|cols|l|l|y]; try (apply Hclosed; exact Hs).
+    destruct e as [y|r c d0|l|cols|l|l|y|k0 sh0 l0|y]; try (apply Hclosed; exact Hs).
     (* y := x : a deep copy *)
     clear Hclosed. cbn [c_def_copy cfg_rep] in Ex. destruct (copyv s1 v) as [w' s3] eqn:Ec. inversion Ex; subst. clear Ex.
     destruct (copyv_spec v _ _ _ Hbv Ec) as [G [N [S D]]].
@@ -1218,7 +1256,7 @@ Proof.
   - pose proof (assign_with_ok st st (SIdx2 x i j d) x _ HI (grows_refl st) eq_refl (k_idx_ok (lin2 i j) d)) as H.
     rewrite Ex in H. apply H. rewrite <- Ex. apply assign_with_np. apply k_idx_np.
   - pose proof (with_src_ok cfg_rep st (SOp x o e) x e (fun cs sink src => k_op cs o sink src) eq_refl HI eq_refl (k_op_ok o)) as H.
-    cbv beta zeta in H. rewrite Ex in H. apply H. rewrite <- Ex. apply (with_src_np cfg_rep st e x (fun cs sink src => k_op cs o sink src) (k_op_np o)).
+    cbv beta zeta in H. rewrite Ex in H. apply H. rewrite <- Ex. exact Hop.
   - pose proof (with_src_ok cfg_rep st (SField x f e) x e (fun cs sink src => k_field cfg_rep cs sink f src) eq_refl HI eq_refl (k_field_ok cfg_rep f)) as H.
     cbv beta zeta in H. rewrite Ex in H. apply H. rewrite <- Ex.
     apply (with_src_np cfg_rep st e x (fun cs sink src => k_field cfg_rep cs sink f src) (fun src => k_field_np cfg_rep f src eq_refl)).
@@ -1256,14 +1294,16 @@ Proof.
 Qed.
 
 Theorem rep_holds_from st h :
-  Inv st -> Forall rep_safe h -> trace_ok (snap_tab st) (impl_trace cfg_rep st h).
+  Inv st -> Forall rep_safe h -> no_op_partial cfg_rep st h = true -> trace_ok (snap_tab st) (impl_trace cfg_rep st h).
 Proof.
-  revert st. induction h as [|s r IH]; intros st HI Hs; cbn [impl_trace]; [exact I|].
-  inversion Hs; subst.
-  destruct (exec_rep_ok st s HI H1) as [Hstep HI'].
+  revert st. induction h as [|s r IH]; intros st HI Hs Hp; cbn [impl_trace]; [exact I|].
+  inversion Hs; subst. cbn [no_op_partial] in Hp. apply andb_prop in Hp as [Hp1 Hp2].
+  apply negb_true_iff in Hp1.
+  destruct (exec_rep_ok st s HI H1 Hp1) as [Hstep HI'].
   destruct (exec_st cfg_rep st s) as [s1 ok] eqn:Ex. cbn [fst snd] in *.
   split; [exact Hstep | apply IH; assumption].
 Qed.
 
-Theorem repaired_holds h : Forall rep_safe h -> trace_ok [] (impl_trace cfg_rep store0 h).
-Proof. intros Hs. apply (rep_holds_from store0 h Inv0 Hs). Qed.
+Theorem repaired_holds h :
+  Forall rep_safe h -> no_op_partial cfg_rep store0 h = true -> trace_ok [] (impl_trace cfg_rep store0 h).
+Proof. intros Hs Hp. apply (rep_holds_from store0 h Inv0 Hs Hp). Qed.
